@@ -5,7 +5,6 @@ import (
 	"strings"
 
 	"github.com/iden3/go-iden3-crypto/v2/babyjub"
-	"github.com/iden3/go-iden3-crypto/v2/constants"
 )
 
 // single PRNG (splitmix64); every random choice of a run derives from it
@@ -42,7 +41,7 @@ func (r *rng) below(m *big.Int) *big.Int {
 func (r *rng) pick(l []*big.Int) *big.Int { return l[r.intn(len(l))] }
 
 var (
-	Q    = constants.Q
+	Q    = bi("21888242871839275222246405745257275088548364400416034343698204186575808495617")
 	L    *big.Int // subgroup order
 	GP   = new(big.Int).SetUint64(18446744069414584321)
 	bOne = big.NewInt(1)
@@ -233,31 +232,51 @@ var (
 	smallPts []*babyjub.Point // the 8 points of order dividing 8
 )
 
+var (
+	refB8 rpt
+	refG  rpt
+)
+
+func toPoint(p rpt) *babyjub.Point {
+	return &babyjub.Point{X: new(big.Int).Set(p.X), Y: new(big.Int).Set(p.Y)}
+}
+
 func initCurve() {
-	L = new(big.Int).Set(babyjub.SubOrder)
+	// constants written out here: the generators must not take the curve parameters from the library under test
+	L = bi("2736030358979909402780800718157159386076813972158567259200215660948447373041")
+	refB8 = rpt{bi("5299619240641551281634865583518297030282874472190772894086521144482721001553"),
+		bi("16950150798460657717958625567821834550301663161624707787222815936182638968203")}
 	r := &rng{s: 12345}
-	for {
-		y := r.below(Q)
-		p, err := babyjub.PointFromSignAndY(r.bool(), y)
-		if err != nil {
+	for tries := 0; ; tries++ {
+		if tries > 10000 {
+			panic("harness: cannot find a point of full order")
+		}
+		p, ok := refFromY(r.below(Q), r.bool())
+		if !ok {
 			continue
 		}
-		t := babyjub.NewPoint().Mul(mul(L, small(4)), p)
+		t := refMul(mul(L, small(4)), p)
 		if t.X.Sign() == 0 && t.Y.Cmp(bOne) == 0 {
 			continue
 		}
-		fullG = p
+		refG = p
 		break
 	}
-	t8 := babyjub.NewPoint().Mul(L, fullG)
+	fullG = toPoint(refG)
+	t8 := refMul(L, refG)
 	for i := 0; i < 8; i++ {
-		smallPts = append(smallPts, babyjub.NewPoint().Mul(small(int64(i)), t8))
+		smallPts = append(smallPts, toPoint(refMul(small(int64(i)), t8)))
 	}
 }
 
+func fromPoint(p *babyjub.Point) rpt { return rpt{mod(p.X, Q), mod(p.Y, Q)} }
+
 func padd(p, q *babyjub.Point) *babyjub.Point {
-	return babyjub.NewPointProjective().Add(p.Projective(), q.Projective()).Affine()
+	return toPoint(refAdd(fromPoint(p), fromPoint(q)))
 }
+
+func pmulB8(k *big.Int) *babyjub.Point { return toPoint(refMul(k, refB8)) }
+func pmulG(k *big.Int) *babyjub.Point  { return toPoint(refMul(k, refG)) }
 
 // a point on the curve from the class mixture
 func (r *rng) curvePoint() *babyjub.Point {
@@ -265,15 +284,15 @@ func (r *rng) curvePoint() *babyjub.Point {
 	case 0:
 		return smallPts[r.intn(8)]
 	case 1:
-		return babyjub.NewPoint().Mul(r.below(L), babyjub.B8)
+		return pmulB8(r.below(L))
 	case 2:
-		return babyjub.NewPoint().Mul(small(int64(r.intn(20))), babyjub.B8)
+		return pmulB8(small(int64(r.intn(20))))
 	case 3:
-		return padd(babyjub.NewPoint().Mul(r.below(L), babyjub.B8), smallPts[r.intn(8)])
+		return padd(pmulB8(r.below(L)), smallPts[r.intn(8)])
 	case 4:
-		return babyjub.NewPoint().Mul(sub(L, small(int64(r.intn(3)))), babyjub.B8)
+		return pmulB8(sub(L, small(int64(r.intn(3)))))
 	default:
-		return babyjub.NewPoint().Mul(r.below(mul(L, small(8))), fullG)
+		return pmulG(r.below(mul(L, small(8))))
 	}
 }
 
